@@ -68,7 +68,8 @@ func Judge(dir string, pkgPatterns []string, args ...string) (map[string]string,
 			return map[string]string{"oracle": "parse", "class": ErrClass(err.Error())}, "derived.gen.go does not parse: " + err.Error()
 		}
 		if !clean {
-			return map[string]string{"oracle": "gofmt"}, "derived.gen.go is not gofmt-formatted"
+			// recorded, not judged: the statement asks for a file that type-checks, not for gofmt's layout
+			gofmtUnclean++
 		}
 	}
 	cr, err := gorun.TypeCheck(dir, true, pkgPatterns...)
@@ -103,6 +104,8 @@ func lastErrLine(s string) string {
 func patternsOf(files map[string]string) []string {
 	return []string{"./p"}
 }
+
+var gofmtUnclean int
 
 type built struct {
 	files    map[string]string
@@ -199,7 +202,11 @@ func TestProp(t *testing.T) {
 		for _, f := range keysOf(b.features) {
 			c.Rep.Class(f)
 		}
+		before := gofmtUnclean
 		sig, msg := Judge(dir, patternsOf(b.files))
+		if gofmtUnclean > before {
+			c.Rep.Class("derived-file-not-gofmt-clean")
+		}
 		if sig != nil && sig["oracle"] == "infra" {
 			c.Rep.Inconcl("%s", msg)
 			return
